@@ -38,6 +38,9 @@ type Prop struct {
 
 var Registry = map[string]*Prop{}
 
+// Extra sub-commands of the binary (child processes of checks).
+var Extra = map[string]func([]string) int{}
+
 func Register(p *Prop) { Registry[p.ID] = p }
 
 func envInt(name string, def int) int {
@@ -73,6 +76,19 @@ func WorkerMain(p *Prop, tier string, seed uint64, shard, nshards int, only []in
 	defer closer()
 	out := bufio.NewWriter(os.Stdout)
 	defer out.Flush()
+	// safety net for the sandbox: a run that eats memory kills only this worker
+	capMB := envInt("VERIF_MEMCAP_MB", 6144)
+	go func() {
+		var ms runtime.MemStats
+		for {
+			time.Sleep(250 * time.Millisecond)
+			runtime.ReadMemStats(&ms)
+			if ms.Sys > uint64(capMB)<<20 {
+				fmt.Fprintf(os.Stderr, "worker memory cap (%d MiB) exceeded\n", capMB)
+				os.Exit(7)
+			}
+		}
+	}()
 	n := p.Runs[tier]
 	var idxs []int
 	if only != nil {
@@ -569,4 +585,47 @@ func ReplayMain(path string) int {
 		fmt.Printf("  note: event log hash %s differs from recorded %s (tree changed?)\n", res.Hash, rf.LogHash)
 	}
 	return 1
+}
+
+// DetTest executes the first n runs of a tier twice, in different processes,
+// at different worker counts and GOMAXPROCS, and compares the event-log hashes.
+func DetTest(self string, p *Prop, tier string, n int) int {
+	seed := Seed()
+	lists := func(nw int) [][]int {
+		l := make([][]int, nw)
+		for i := 0; i < n; i++ {
+			l[i%nw] = append(l[i%nw], i)
+		}
+		return l
+	}
+	os.Setenv("GOMAXPROCS", "16")
+	a, _, tr := runWorkers(self, p, tier, seed, 16, lists(16))
+	if tr != "" {
+		fmt.Fprintln(os.Stderr, "HARNESS-TROUBLE", tr)
+		return 2
+	}
+	os.Setenv("GOMAXPROCS", "1")
+	b, _, tr := runWorkers(self, p, tier, seed, 5, lists(5))
+	if tr != "" {
+		fmt.Fprintln(os.Stderr, "HARNESS-TROUBLE", tr)
+		return 2
+	}
+	os.Setenv("GOMAXPROCS", "4")
+	c, _, tr := runWorkers(self, p, tier, seed, 11, lists(11))
+	if tr != "" {
+		fmt.Fprintln(os.Stderr, "HARNESS-TROUBLE", tr)
+		return 2
+	}
+	bad := 0
+	for i := range a {
+		if a[i].Hash != b[i].Hash || a[i].Hash != c[i].Hash {
+			fmt.Printf("NONDETERMINISTIC %s run %d: %s %s %s\n", p.ID, a[i].Idx, a[i].Hash, b[i].Hash, c[i].Hash)
+			bad++
+		}
+	}
+	fmt.Printf("dettest %s %s: %d runs x 3 executions (workers 16/5/11, GOMAXPROCS 16/1/4): %d divergent\n", p.ID, tier, n, bad)
+	if bad > 0 {
+		return 2
+	}
+	return 0
 }
